@@ -169,4 +169,24 @@ CHECKS = {
                 'current directory, timeout and symbol values that the reference state gives after the preceding instructions.',
         'note': _TB + '; real timeouts/kills belong to C19; values never contain braces',
     },
+    'C08': {
+        'category': 'exploration',
+        'technique': 'runtime monitoring: outcome + complete probe trace (argv, stdin, cwd, trees) of generated def/reference programs compared with a reference interpreter; effect monitors on rejected programs',
+        'text': '16 definition kinds x 53 reference contexts x 7 placements (matrix), every well-typed chain with 1 and 2 intermediate '
+                'definitions over 46 link kinds, all phase pairs/triples x file-order permutations, duplicates incl. every builtin, '
+                '(14359 deterministic executions) plus seeded programs: rejected programs must end VALIDATION_ERROR with no effect event; '
+                'accepted programs must PASS and every probe record must equal the reference value (concatenation, splicing, absolute '
+                'paths, list-in-string joined by single blanks).',
+        'note': _TB + '; constructs the manual leaves open (lists/paths inside file names, non-literal integers) are not generated',
+    },
+    'C18': {
+        'category': 'exploration',
+        'technique': 'runtime monitoring: grammar-based fuzzing (labelled mutations of verified-valid uses of every instruction and type) under an escaped-exception monitor, the outcome-table monitor and a location-of-report oracle',
+        'text': '268 valid-use templates covering every instruction of every phase and every form of every type, each verified to PASS in the '
+                'run itself, mutated by token deletion/duplication/transposition/replacement, truncation at every character, quote and '
+                'here-document damage, wrong-type symbols, ill-formed and extreme integers/regexes/replacements/globs/strings, whole-file '
+                'forms and extreme structures: no exception may escape, the outcome must be a documented row, never INTERNAL_ERROR or a '
+                'traceback, a 65-outcome must name line N and show the source line, and inputs ill-formed by construction must be reported.',
+        'note': _TB + '; integer tokens from a closed harmless vocabulary (Exactly passes them to eval); three open known findings on extreme inputs (NUL, over-long names, 400-digit timeout)',
+    },
 }
